@@ -717,7 +717,21 @@ class Scripted(asyncio.Protocol):
         self.done_at = self.loop.time()
 
 
+_HS_CACHE = {}
+
+
 def hs_catalogue(h, blob, oh, oblob, never_closes=65536):
+    """Memoised front of _hs_catalogue (the entries are immutable; building all of them costs ~1 ms for small
+    blobs and ~0.5 s for a 2 MiB one)."""
+    key = (h, oh, never_closes)
+    if key not in _HS_CACHE:
+        if len(_HS_CACHE) > 6:
+            _HS_CACHE.clear()
+        _HS_CACHE[key] = _hs_catalogue(h, blob, oh, oblob, never_closes)
+    return _HS_CACHE[key]
+
+
+def _hs_catalogue(h, blob, oh, oblob, never_closes=65536):
     """Hostile-server catalogue for a request of blob `blob` (hash h); (oh, oblob) is another real blob.
     entry = dict(resp=[actions], pre=[actions], hl=header length used for the cut points, must_fail=bool).
     must_fail = the statement's literal list (wrong hash, wrong length, corrupted, short, malformed or
@@ -996,7 +1010,10 @@ def hostile_server_cases(quick):
     positions = [(1, 1), (2, 2), (2, 1)] if quick else [(1, 1), (2, 2), (2, 1), (3, 3), (3, 2), (3, 1)]
     shapes = ['plain20'] if quick else ['plain20', 'one', 'addr', 'fakehdr']
     names = list(hs_catalogue(sha(b'x'), b'x' * 20, sha(b'y'), b'y' * 20, 8))
-    cutsets = [list(s) for s in subsets(HS_CUTS)] + ['bytes1']
+    if quick:    # every subset of the three header-end cuts, the body-middle cut alone and with the header-end cut
+        cutsets = [list(s) for s in subsets(HS_CUTS[:3])] + [['mid'], ['he', 'mid']] + ['bytes1']
+    else:
+        cutsets = [list(s) for s in subsets(HS_CUTS)] + ['bytes1']
     cases = []
     for shape in shapes:
         for (n, k) in positions:
@@ -1680,7 +1697,7 @@ def cost(pairing, case):
         return (400 if (big and 'he' in case['s2c']) else 15 if big else 1) * len(case['seq']) * (4 if b1 else 1)
     if pairing == 'B':
         if case['shape'] in ('big', 'bigaddr'):
-            return 500 if case['cuts'] else 60
+            return 500 if case['cuts'] else 400
         return 6 if case['cuts'] == 'bytes1' else 1
     return 1
 
@@ -1747,12 +1764,12 @@ def run(ctx):
               + '; 2 MiB blobs ' + ('as singles' if quick else 'with every subset of 8 cuts') + '. '
               'B (real client <-> scripted hostile server): every catalogue entry x every message position k of n '
               f'requests (n <= {2 if quick else 3}) x client knows/does not know the length x every subset of {{header '
-              f'end -1/0/+1, body middle}} + 1-byte, each with every placement of <= {bound} timer-before-data '
+              f'end -1/0/+1{"" if quick else ", body middle"}}}{" + {mid} + {he, mid}" if quick else ""} + 1-byte, each with every placement of <= {bound} timer-before-data '
               'deviation(s). C (scripted hostile client <-> real server + second honest client before/after): every '
               f'catalogue entry incl. the request split at every byte offset, with <= {bound} timer deviation(s). '
               'D (one client-side blob requested concurrently from the real server and from a scripted liar, as '
               'BlobDownloader races peers): 12 liar entries x length known/unknown x start order, EVERY interleaving of '
-              'the two connections\' client-bound deliveries at the cuts header / half body / rest, each with <= 1 timer '
+              'the two connections\' client-bound deliveries at the cuts header / half body / rest, each with <= ' + str(bound) + ' timer '
               'deviation (liar timeout 5 s < honest 10 s). E: the same two peers behind the real BlobDownloader.download_blob '
               '(peer queue in both orders), every interleaving of the first connection to each peer. '
               'Non-trivial = every case except the single whole-request/whole-response honest transfer; states = '
